@@ -179,7 +179,10 @@ def handle (j : Json) : R Json := do
       match e with
       | .arr #[k, c] => pure (← asNat k, ← asNat c)
       | _ => throw "sessions entry must be [conn, client]"
-    let s := run (init info paired sessions) steps
+    let safe := match j.getObjVal? "safe" with
+      | .ok (.bool b) => b
+      | _ => false
+    let s := run (init info paired sessions safe) steps
     pure (Json.mkObj [("log", Json.arr (s.log.reverse.map jobs).toArray),
                       ("paired", Json.arr (s.paired.map fun (c, a) => Json.arr #[Json.num c, Json.bool a]).toArray),
                       ("pending", Json.num (s.execQ.length + s.loopQ.length)),
